@@ -126,6 +126,11 @@ func failingStatements(w *world, maxM int) []failStmt {
 // c14Seeds: name -> builder. t4 variants put the long row at position k.
 func c14Seed(w *world, name string) *world {
 	switch {
+	case name == "t1x8-maxrow-upper":
+		// eight rows in one leaf, the sixth of them exactly at the 400-byte limit: the next row splits the leaf and
+		// the split has to move the big row
+		ok := w.do(mkCreate("t1", worldSchemas["t1"])) && w.do(mkInsert(w.model, "t1", 5, false)) && w.do(mkInsert(w.model, "t1", 1, true)) && w.do(mkInsert(w.model, "t1", 2, false))
+		return okw(w, ok)
 	case name == "small:t1x40":
 		// reduced capacity: 40 rows make a tree of several levels with split internal nodes
 		ok := w.do(mkCreate("t1", worldSchemas["t1"]))
@@ -172,7 +177,7 @@ func c14Seed(w *world, name string) *world {
 
 func runC14(env *lib.Env, rep *lib.Report) {
 	maxM := 3
-	seeds := []string{"t1-empty", "t1x8", "t1x8-upper-deleted", "interleaved", "t4k1", "t4k2", "t4k3", "t5-null-later", "small:t1x40"}
+	seeds := []string{"t1-empty", "t1x8", "t1x8-upper-deleted", "interleaved", "t4k1", "t4k2", "t4k3", "t5-null-later", "small:t1x40", "t1x8-maxrow-upper"}
 	if env.Thorough() {
 		maxM = 4
 		seeds = append(seeds, "t1x30", "t1x8+t2t3-crashed", "t1x12+t2x1")
